@@ -113,6 +113,43 @@ class QuantityNew(Contract):
 ALL.append("QuantityNew")
 
 
+class ArrayNewFromNdarray(Contract):
+    """unyt_array(<ndarray>, <Unit>): a view of the caller's memory (C16: 'building an array from a
+    NumPy array with the constructor is a view'), labelled with the unit, same numbers, same dtype"""
+    name = "unyt.array.unyt_array.__new__"
+    tag = "ndarray"
+    properties = ("C16", "C18")
+    callsite_disabled = True
+
+    def formals(self, it):
+        from pyvc.unyt_domain import cls_of
+        return {"cls": ClassRef(cls_of(it, "unyt_array")), "input_array": N.make_ndarray(it, "data"),
+                "units": make_unit(it, "u")}
+
+    def requires(self, it, a):
+        k = to_z3(N.arr_kind(a.input_array))
+        return [("numeric data", z3.Or(k == N.sv("f"), k == N.sv("i"), k == N.sv("u"), k == N.sv("c")))]
+
+    def snapshot(self, it, a):
+        return snapshot_array(a.input_array)
+
+    def ensures(self, it, a, r, old):
+        ok = N.is_unyt_array(r)
+        if not ok:
+            return [("the result is a unyt_array", False)]
+        return [("C16: the result is a view of the caller's memory", N.arr_buf(r) is old["buf"]),
+                ("it is labelled with the given unit", r.fields["units"] is a.units),
+                ("C18: the caller's data is not written", N.arr_buf(a.input_array).writes == old["writes"]
+                 and N.arr_buf(a.input_array).elem is old["elem"]),
+                ("it is a unyt_array", r.cls.name == "unyt_array")]
+
+    def canary(self, it, a, r, old):
+        return z3.BoolVal(False)
+
+
+ALL.append("ArrayNewFromNdarray")
+
+
 class UnitMulData(Contract):
     """Unit.__mul__ with data (ndarray * Unit): a copy (fresh memory, same numbers), a
     unyt_quantity for shape () and a unyt_array otherwise, labelled with the unit"""
